@@ -56,7 +56,8 @@ def build(repo):
     f = SourceFile(repo, "src/cpp.rs")
     s0, ob0, cb0 = f.find_fn_span("process")
     m = f.masked
-    h = re.compile(r"while input\.read_line\(&mut buf\)\? > 0 \{").search(m, ob0, cb0)
+    MAPERR = r"(?:\s*\.map_err\(\|e\| io_error\([^()]*\)\))?"
+    h = re.compile(r"while input\s*\.read_line\(&mut buf\)" + MAPERR + r"\?\s*> 0\s*\{").search(m, ob0, cb0)
     if not h:
         raise Undecided("process(): `while input.read_line(&mut buf)? > 0 {` not found")
     wob = h.end() - 1
@@ -67,6 +68,7 @@ def build(repo):
     lcb = match_brace(m, lp.end() - 1, "{", "}")
     start = f.text.index("\n", wob) + 1
     c = f.cut_span(start, lcb + 1, "process(): `line += 1;` and the splice loop at the head of the reader loop (R8)")
+    c.sub(r"\s*\.map_err\(\|e\| io_error\([^()]*\)\)", "", "R1 the conversion of an I/O error into a located error (the error value is not this unit's subject)", expect=(0, 2))
     lits = []
     def lit(mm):
         t = mm.group(2)
@@ -81,7 +83,7 @@ def build(repo):
     assigns = [ob0 + a for a in assigns]
     decl = [a for a in assigns if re.search(r"let\s+mut\s+$", m[max(0, a - 12):a])]
     outside = [a for a in assigns if a not in decl and not (start <= a <= lcb)]
-    reads = [ob0 + x.start() for x in re.finditer(r"\binput\.\w+\(", m[ob0:cb0])]
+    reads = [ob0 + x.start() for x in re.finditer(r"\binput\s*\.\w+\(", m[ob0:cb0])]
     reads_out = [r for r in reads if not (start <= r <= lcb) and not (h.start() <= r < h.end())]
     fn = """
 // R8: the head of the reader loop of process(), verbatim
